@@ -142,21 +142,43 @@ type Recorder struct {
 	Property string
 	Rule     string
 
-	mu          sync.Mutex
-	evals       int64
-	fps         map[uint64]struct{}
-	enumDist    int64
-	classes     map[string]int64
-	samples     []any
-	sampleKeys  map[string]bool
-	known       []Known
-	knownHits   map[string]int64
-	excluded    map[string]int64
-	extra       map[string]any
-	assumptions []string
-	violations  []string
-	start       time.Time
-	maxSamples  int
+	mu           sync.Mutex
+	evals        int64
+	fps          map[uint64]struct{}
+	enumDist     int64
+	classes      map[string]int64
+	samples      []any
+	sampleKeys   map[string]bool
+	known        []Known
+	knownHits    map[string]int64
+	excluded     map[string]int64
+	extra        map[string]any
+	assumptions  []string
+	violations   []string
+	start        time.Time
+	maxSamples   int
+	survey       map[string]int
+	surveyDetail map[string]string
+}
+
+// SurveyReport lists the signatures collected in survey mode.
+func (r *Recorder) SurveyReport() string {
+	r.mu.Lock()
+	defer r.mu.Unlock()
+	keys := make([]string, 0, len(r.survey))
+	for k := range r.survey {
+		keys = append(keys, k)
+	}
+	sort.Strings(keys)
+	var sb strings.Builder
+	for _, k := range keys {
+		d := r.surveyDetail[k]
+		if len(d) > 260 {
+			d = d[:260]
+		}
+		fmt.Fprintf(&sb, "SURVEY %6d %s :: %s\n", r.survey[k], k, strings.ReplaceAll(d, "\n", " "))
+	}
+	return sb.String()
 }
 
 // New creates a recorder.
@@ -195,7 +217,11 @@ func (r *Recorder) Excluded(sig string) { r.mu.Lock(); r.excluded[sig]++; r.mu.U
 func (r *Recorder) Extra(k string, v any) { r.mu.Lock(); r.extra[k] = v; r.mu.Unlock() }
 
 // Assume records an assumption for the evidence file.
-func (r *Recorder) Assume(s string) { r.mu.Lock(); r.assumptions = append(r.assumptions, s); r.mu.Unlock() }
+func (r *Recorder) Assume(s string) {
+	r.mu.Lock()
+	r.assumptions = append(r.assumptions, s)
+	r.mu.Unlock()
+}
 
 // Sample keeps up to 8 samples, one per key (class), first come.
 func (r *Recorder) Sample(key string, v any) {
@@ -271,6 +297,23 @@ func (r *Recorder) Check(t TB, test string, c any, f *Failure) bool {
 	if k := r.KnownMatch(f.Sig); k != nil {
 		r.mu.Lock()
 		r.knownHits[f.Sig]++
+		r.mu.Unlock()
+		return false
+	}
+	if os.Getenv("VERIF_SURVEY") != "" {
+		// development aid: collect every failing signature instead of stopping at the first
+		r.mu.Lock()
+		if r.survey == nil {
+			r.survey = map[string]int{}
+			r.surveyDetail = map[string]string{}
+		}
+		if r.survey[f.Sig] == 0 {
+			r.surveyDetail[f.Sig] = f.Detail
+			r.mu.Unlock()
+			r.WriteReplay(test, c, f)
+			r.mu.Lock()
+		}
+		r.survey[f.Sig]++
 		r.mu.Unlock()
 		return false
 	}
